@@ -33,3 +33,16 @@ func VerifC03CheckEffective() {
 	}
 	zz.Assert(got == want, "checkEffective equals the half-open window oracle")
 }
+
+// VerifC03CalendarModel: sanity of the engine's calendar abstraction (used when
+// code under test re-derives an instant from calendar fields): rebuilding a UTC
+// instant from its own fields gives the instant back.  Under the engine this
+// exercises the model's axioms; the sampled paths are replayed natively, where
+// the real package time must agree.
+func VerifC03CalendarModel() {
+	t := zz.Time()
+	u := time.Date(t.Year(), t.Month(), t.Day(), t.Hour(), t.Minute(), t.Second(), t.Nanosecond(), time.UTC)
+	zz.Cover("rebuilt")
+	zz.Assert(u.Equal(t), "an instant rebuilt from its calendar fields in UTC is the same instant")
+	zz.Assert(u.Unix() == t.Unix() && u.Nanosecond() == t.Nanosecond(), "seconds and nanoseconds survive the rebuild")
+}
